@@ -1,6 +1,6 @@
 (* C07 -- PkgLength encodings are correct for every representable length. Statements only. *)
 From Coq Require Import NArith List.
-From ACPI Require Import Lib.Bytes Lib.Sx Lib.Machine Impl.AmlCore Spec.AmlCoreS Proofs.PkgLenP.
+From ACPI Require Import Lib.Bytes Lib.Sx Lib.Machine Impl.AmlCore Impl.AmlTerm Spec.AmlCoreS Proofs.PkgLenP Proofs.FrameSitesP.
 Import ListNotations.
 Open Scope N_scope.
 
@@ -30,6 +30,33 @@ Theorem c07_refuses :
   forall md n (incl : bool), n < 2 ^ 63 -> 2 ^ 28 <= n + (if incl then pkg_ll n else 0) -> pkg_len md n incl = None.
 Proof. exact pkg_len_refuse. Qed.
 
+(* The call sites: every constructor that emits a length-prefixed object (frame_op lists them with their opcodes: Buffer
+   data / terms, Uuid buffers, resource templates, variable packages, Device, Scope and Scope::raw, Method, PowerResource,
+   Field, Package and PackageBuilder, If, Else, While) emits  opcode ++ PkgLength ++ body  where the PkgLength decodes,
+   whatever follows the object, to exactly the distance from its own first byte to the end of the object, has the
+   specification's lead-byte format and is the shortest that can include its own size. *)
+Theorem c07_call_sites :
+  forall md t op b, frame_op t = Some op -> enc md t = Some b -> N.of_nat (length b) < 2 ^ 63 ->
+    exists pl body,
+      b = op ++ pl ++ body /\
+      (forall r, pkg_decode (pl ++ body ++ r) = Some (N.of_nat (length pl + length body), body ++ r)) /\
+      lead_ok pl /\
+      (forall w, (1 <= w < length pl)%nat -> pkg_cap w < N.of_nat (length body) + N.of_nat w).
+Proof. exact frame_sites. Qed.
+
+(* Field-list entries: the width of a named or reserved field decodes to exactly the width given. *)
+Theorem c07_field_entries :
+  forall md e b, enc_fentry md e = Some b ->
+    match e with
+    | FNamed name len => len < 2 ^ 63 -> exists pl, b = name ++ pl /\ forall r, pkg_decode (pl ++ r) = Some (len, r)
+    | FReserved len => len < 2 ^ 63 -> exists pl, b = 0 :: pl /\ forall r, pkg_decode (pl ++ r) = Some (len, r)
+    end.
+Proof. exact fentry_width. Qed.
+
+Example c07_site_example :
+  enc Wrapping (TResTemplate []) = Some [0x11; 0x05; 0x0A; 0x02; 0x79; 0x00] /\ frame_op (TResTemplate []) = Some [0x11].
+Proof. vm_compute. split; reflexivity. Qed.
+
 (* non-vacuity: one length per width, across the boundaries 63/64, 4095/4096, 2^20 *)
 Example c07_examples :
   pkg_len Wrapping 62 true = Some [63] /\ pkg_len Wrapping 63 true = Some [0x41; 0x04] /\
@@ -41,3 +68,5 @@ Print Assumptions c07_inclusive.
 Print Assumptions c07_exclusive.
 Print Assumptions c07_accepts.
 Print Assumptions c07_refuses.
+Print Assumptions c07_call_sites.
+Print Assumptions c07_field_entries.
